@@ -270,6 +270,30 @@ class Layouts:
                 if name == "saturating_add":
                     return min(x + y, (1 << 64) - 1)
                 return round_up(x, y)
+            if name in ("checked_add", "checked_mul", "checked_sub", "checked_next_multiple_of") and len(a) == 2 and path.startswith("<usize>"):
+                x = self.eval(a[0], shapes, args, tail_len)
+                y = self.eval(a[1], shapes, args, tail_len)
+                if not isinstance(x, int) or not isinstance(y, int):
+                    raise Unknown("checked arithmetic on non-integers")
+                if name == "checked_next_multiple_of":
+                    if y == 0:
+                        return ("ERR",)
+                    r = round_up(x, y)
+                else:
+                    r = {"checked_add": x + y, "checked_mul": x * y, "checked_sub": x - y}[name]
+                return ("ERR",) if r < 0 or r >= (1 << 64) else r
+            if path in ("<core::option::Option<T>>::and_then", "<core::option::Option<T>>::map", "<core::result::Result<T, E>>::and_then", "<core::result::Result<T, E>>::map") and len(a) == 2:
+                v = self.eval(a[0], shapes, args, tail_len)
+                if v == ("ERR",):
+                    return v
+                if not isinstance(v, int):
+                    raise Unknown("closure applied to a non-integer")
+                r = symx.inline_closure_call(self.F, ("call", symx.CALL_TRAIT_FNS[0], "call_once", (a[1], ("agg", "tuple", None, None, (("const", v),), (), None)), (), None, (), ()))
+                if r is None:
+                    raise Unknown("closure of " + name + " is not one expression")
+                return self.eval(r, shapes, args, tail_len)
+            if path in ("<core::option::Option<T>>::ok_or", "<core::result::Result<T, E>>::ok", "<core::result::Result<T, E>>::map_err", "<core::option::Option<T>>::ok_or_else") and a:
+                return self.eval(a[0], shapes, args, tail_len)
             if path in ("<core::result::Result<T, E>>::unwrap", "<core::result::Result<T, E>>::expect", "<core::option::Option<T>>::unwrap", "<core::option::Option<T>>::expect"):
                 v = self.eval(a[0], shapes, args, tail_len)
                 if v == ("ERR",):
